@@ -57,6 +57,8 @@ pub fn any_graph_strategy(max_len: usize) -> BoxedStrategy<AnyGraph> {
     prop_oneof![
         3 => gen::hist(max_len, &[0, 1, 1, 2]).prop_map(AnyGraph::Hist),
         2 => graph_strategy(&ALL_KINDS, 0, 9, me, &[0, 1, 1, 3], 3).prop_map(AnyGraph::Graph),
+        // a few larger graphs, so that size-dependent behaviour is not out of reach
+        1 => graph_strategy(&ALL_KINDS, 10, 30, me, &[0, 1, 3], 3).prop_map(AnyGraph::Graph),
     ]
     .boxed()
 }
